@@ -5,7 +5,8 @@ CONSTANTS MaxSeg = 2
           MaxFork = 2
           Schemes = {"hash", "path"}
           Depth = 0
-INVARIANTS TypeOK DataClosed CanonLinked CanonHasHeads CanonEndsAtHead HeadOrder HeadStateAvail LookupComplete LookupSound
-PROPERTIES EventsDescribeSwitch HeadEventIsHead
+          Trees <- GenTrees
+INVARIANTS TypeOK DataClosed CanonHasHeads CanonLinkedToHead StaleIsLeftover HeadOrder HeadStateAvail LookupComplete LookupSound
+PROPERTIES EventsDescribeSwitchPending AddedLogsCanonical RemovedWereCanonical HeadEventIsHead
 VIEW View
 CHECK_DEADLOCK FALSE
